@@ -40,6 +40,7 @@ type Harness struct {
 	Quick    []string `json:"quick,omitempty"`
 	Thorough []string `json:"thorough,omitempty"`
 	TimeoutS int      `json:"timeout_s,omitempty"`
+	Race     bool     `json:"race,omitempty"`
 	Rule     string   `json:"rule"`
 }
 
@@ -520,7 +521,10 @@ func runHarness(h *Harness, tier string, seed int, repoDir string) *HarnessResul
 	if tier == "thorough" {
 		timeout *= 6
 	}
-	args := []string{"test", "-count=1", "-vet=off", "-timeout", fmt.Sprintf("%ds", timeout), "-run", h.Run, "./" + h.Dir}
+	args := []string{"test", "-v", "-count=1", "-vet=off", "-timeout", fmt.Sprintf("%ds", timeout), "-run", h.Run}
+	if h.Race {
+		args = append(args, "-race")
+	}
 	env := append(os.Environ(), "GOFLAGS=-mod=mod", "GOPROXY=off", "GOSUMDB=off", "GOTOOLCHAIN=local",
 		"VERIF_TIER="+tier, fmt.Sprintf("VERIF_SEED=%d", seed), "VERIF_REPO="+repoDir)
 	extra := h.Quick
@@ -528,11 +532,29 @@ func runHarness(h *Harness, tier string, seed int, repoDir string) *HarnessResul
 		extra = h.Thorough
 	}
 	env = append(env, extra...)
-	// the replace directive must point at the tree under test
-	if err := prepareReplayModule(dir, repoDir); err != nil {
-		res.InfraError = err.Error()
-		return res
+	// the replace directive must point at the tree under test: a temporary modfile is used when
+	// that is not /repo, so that nothing under /verif is rewritten
+	if repoDir != "/repo" {
+		tmp, err := os.MkdirTemp("", "replaymod")
+		if err != nil {
+			res.InfraError = err.Error()
+			return res
+		}
+		defer os.RemoveAll(tmp)
+		b, err := os.ReadFile(filepath.Join(dir, "go.mod"))
+		if err != nil {
+			res.InfraError = err.Error()
+			return res
+		}
+		re := regexp.MustCompile(`replace github.com/ipfs/go-unixfsnode => \S+`)
+		nb := re.ReplaceAll(b, []byte("replace github.com/ipfs/go-unixfsnode => "+repoDir))
+		os.WriteFile(filepath.Join(tmp, "go.mod"), nb, 0o644)
+		if sum, err := os.ReadFile(filepath.Join(dir, "go.sum")); err == nil {
+			os.WriteFile(filepath.Join(tmp, "go.sum"), sum, 0o644)
+		}
+		args = append(args, "-modfile="+filepath.Join(tmp, "go.mod"))
 	}
+	args = append(args, "./"+h.Dir)
 	ctx, cancel := context.WithTimeout(context.Background(), time.Duration(timeout+60)*time.Second)
 	defer cancel()
 	cmd := exec.CommandContext(ctx, "go", args...)
@@ -581,24 +603,6 @@ func lastLines(s string, n int) string {
 		l = l[len(l)-n:]
 	}
 	return strings.Join(l, "\n")
-}
-
-// prepareReplayModule rewrites the replace directive of /verif/replay/go.mod when the tree under
-// test is not /repo, and refreshes go.sum from the tree under test.
-func prepareReplayModule(dir, repoDir string) error {
-	modFile := filepath.Join(dir, "go.mod")
-	b, err := os.ReadFile(modFile)
-	if err != nil {
-		return err
-	}
-	re := regexp.MustCompile(`replace github.com/ipfs/go-unixfsnode => \S+`)
-	nb := re.ReplaceAll(b, []byte("replace github.com/ipfs/go-unixfsnode => "+repoDir))
-	if !bytes.Equal(nb, b) {
-		if err := os.WriteFile(modFile, nb, 0o644); err != nil {
-			return err
-		}
-	}
-	return nil
 }
 
 // ---------------------------------------------------------------------------------------
